@@ -207,6 +207,12 @@ def same(t1, t2) -> bool:
 
 
 def gen_world_params(rng: SimRandom, idx: int) -> dict:
+    if rng.chance(0.08):  # swarm: an occasional larger world
+        return {
+            'seed': rng.getrandbits(32), 'n_sites': rng.randint(7, 10), 'n_atoms': rng.randint(4, 6), 'nf': rng.randint(71, 200),
+            'spacing': round(2.6 + 0.013 * idx + rng.uniform(0, 0.2), 4), 'b': round(4.0 + 0.017 * idx, 4), 'temp': 300.0 + 7.0 * idx,
+            'p_hop': 0.15, 'dt': 2e-15, 'label_shift': 0,
+        }
     return {
         'seed': rng.getrandbits(32),
         'n_sites': rng.randint(4, 6),
